@@ -5,6 +5,9 @@
     c20.spec.murmur  seed hex            -> decimal                          (Spec.Bloom.murmur3)
     c20.ctor         nElements rate log(rate) 1/ln2^2 ln2   (rationals as num den pairs)
                                          -> "size k" | err:…                 (Model.Bloom.createPy decides the exceptions)
+    c20.murmurSeq    seed:hex,seed:hex,…  -> the answers of consecutive MurmurHash3 calls, ','-joined (each is the stateless one)
+    c20.multi        init|init|… ops      -> ops `<i>.<op>` on several filters alive at once; a failing op answers err:… and the
+                                            history goes on with that filter unchanged (state advances through Model.Bloom.run)
     c20.hist         init ops            -> one token per op, ','-joined     (Model)
     c20.spec.hist    init ops            -> same, computed on the set-of-bit-indices Spec; `too-large` when
                                             data is non-empty and k > 100000 (not evaluated, not compared)
@@ -189,6 +192,32 @@ def specRun (f : SFilter) (ops : List HOp) (acc : Array String) : Array String :
                                                   && f.k ≤ Spec.Bloom.MAX_HASH_FUNCS)))
     | .params => specRun f rest (acc.push s!"{f.k}/{f.tweak}/{f.flags}")
 
+/-- one op on one of several filters; a failing op leaves its filter as it was and the history goes on -/
+def multiStep (fs : Array Filter) (i : Nat) (op : HOp) : Array Filter × String :=
+  match fs[i]? with
+  | none => (fs, badArgs)
+  | some f =>
+    match toOp? op with
+    | some o => match Model.Bloom.run f [o] with
+        | .ok g => (fs.set! i g, ".")
+        | .error e => (fs, errTok e)
+    | none =>
+      match op with
+      | .has x => (fs, match Model.Bloom.containsElem f x with | .ok b => b01 b | .error e => errTok e)
+      | .dump => (fs, toHex f.vData)
+      | .ser => (fs, match Model.Bloom.ser f with | .ok b => toHex b | .error e => errTok e)
+      | .within => (fs, b01 (Model.Bloom.isWithinSizeConstraints f))
+      | .params => (fs, s!"{f.nHashFuncs}/{f.nTweak}/{f.nFlags}")
+      | _ => (fs, badArgs)
+
+def parseMultiOp? (s : String) : Option (Nat × HOp) :=
+  match s.splitOn "." with
+  | [i, o] => do
+      let i ← parseNat? i
+      let o ← parseOp? o
+      pure (i, o)
+  | _ => none
+
 def joinToks (a : Array String) : String := joinWith "," a.toList
 
 def mkRat? (n d : String) : Option Rat := do
@@ -200,6 +229,23 @@ def handle (op : String) (args : List String) : Option String :=
   match op, args with
   | "c20.murmur", [seed, d] => some <| match parseNat? seed, parseHex? d with
       | some s, some d => Res.render ((Model.Bloom.murmurHash3 s d).map toString)
+      | _, _ => badArgs
+  | "c20.murmurSeq", [calls] => some <|
+      match (splitList calls ',').mapM (fun c => match c.splitOn ":" with
+          | [s, d] => do let s ← parseNat? s; let d ← parseHex? d; pure (s, d)
+          | _ => none) with
+      | some cs => joinWith "," (cs.map (fun (s, d) => Res.render ((Model.Bloom.murmurHash3 s d).map toString)))
+      | none => badArgs
+  | "c20.multi", [inits, ops] => some <|
+      match (splitList inits '|').mapM modelInit?, (splitList ops ',').mapM parseMultiOp? with
+      | some is, some ops =>
+          match is.mapM (fun r => match r with | .ok f => some f | .error _ => none) with
+          | some fs =>
+              let (_, outs) := ops.foldl (fun (st : Array Filter × Array String) (io : Nat × HOp) =>
+                let (fs', o) := multiStep st.1 io.1 io.2
+                (fs', st.2.push o)) (fs.toArray, #[])
+              joinToks outs
+          | none => badArgs
       | _, _ => badArgs
   | "c20.spec.murmur", [seed, d] => some <| match parseNat? seed, parseHex? d with
       | some s, some d => if s < 2 ^ 32 then toString (Spec.Bloom.murmur3 (UInt32.ofNat s) d).toNat else badArgs
